@@ -1220,6 +1220,8 @@ class Engine:
             return z3.Or([veq(x, v) for x in coll.items]) if coll.items else z3.BoolVal(False)
         if isinstance(coll, BagV):
             return B(coll.to_set(1 if isinstance(v, (IntV, int)) else len(v)).contains(v))
+        if isinstance(coll, ObjV) and callable(coll.fields.get("__contains__")):
+            return B(coll.fields["__contains__"](v))  # opaque container with a ghost membership predicate
         raise Unsupported(f"'in' on {coll!r}")
 
     def ev_IfExp(self, node, st):
